@@ -24,7 +24,7 @@ from vf import h1case, sansio
 
 PROPERTY = "C03"
 LEVEL = "fault_enumeration"
-ENGINE = "sansio"
+ENGINE = "sansio+vloop"
 BUDGET = {"quick": (400, 20), "thorough": (20000, 240)}
 WORKERS = {"quick": 4, "thorough": 16}
 REQUIRED = ["handler.cases", "handler.connect_pending_long", "h2.cases", "h2.fault.connect_refused", "order", "final", "fault.client_cut", "fault.server_cut", "fault.connect_refused", "policy.kill", "policy.set_response", "policy.stream"]
